@@ -1,2 +1,149 @@
-(* Properties/C09.v — property theorems only. (stub) *)
+(* Properties/C09.v — With zero gap-open cost Global and Local return the optimal
+   score; Levenshtein is minus the edit distance; the shipped matrices are total,
+   symmetric, have gap-open 0, never panic and allow swapping the arguments.
+   Only statements; every proof is [exact <lemma>].
+   The table facts are proved by computation over gen/Tables.v and gen/Lev.v, which
+   are regenerated from the implementation on every run. *)
+From Coq Require Import String.
 From Bio Require Import Base.
+From Bio.gen Require Import Tables Lev.
+From Bio.Model Require Import Align.
+From Bio.Spec Require Import AlignSpec.
+From Bio.Proofs Require Import AlignProofs AlignProofsB AlignProofsC.
+Open Scope Z_scope.
+
+(* No alignment of a with b scores above what Global returns (with C08_global_valid
+   the bound is attained by the returned steps).  Any sign of the gap scores. *)
+Theorem C09_global_optimal0 : forall m a b, covers m a b -> gap_open m = Ok 0 ->
+  exists gs, global_score m a b = Ok gs /\
+    forall al s, consumes al = (length a, length b) -> score m a b al = Ok s -> s <= gs.
+Proof. exact global_optimal0. Qed.
+Print Assumptions C09_global_optimal0.
+
+(* No alignment of any pair of substrings a[i..], b[j..] (the steps say where it
+   ends) scores above what Local returns.  Any sign of the gap scores. *)
+Theorem C09_local_optimal0 : forall m a b, covers m a b -> gap_open m = Ok 0 ->
+  exists ls, local_score m a b = Ok ls /\
+    forall i j al s, score m (skipn i a) (skipn j b) al = Ok s -> s <= ls.
+Proof. exact local_optimal0. Qed.
+Print Assumptions C09_local_optimal0.
+
+Theorem C09_global_optimal0_any_scorer : forall g a b, covers_g g a b -> gap_open_g g = Ok 0 ->
+  exists gs, global_score_g g a b = Ok gs /\
+    forall al s, consumes al = (length a, length b) -> score_g g a b al = Ok s -> s <= gs.
+Proof. exact global_optimal0_g. Qed.
+Print Assumptions C09_global_optimal0_any_scorer.
+
+Theorem C09_local_optimal0_any_scorer : forall g a b, covers_g g a b -> gap_open_g g = Ok 0 ->
+  exists ls, local_score_g g a b = Ok ls /\
+    forall i j al s, score_g g (skipn i a) (skipn j b) al = Ok s -> s <= ls.
+Proof. exact local_optimal0_g. Qed.
+Print Assumptions C09_local_optimal0_any_scorer.
+
+(* Levenshtein: all 65,536 entries of the shipped table follow the rule
+   (0 on the diagonal, -1 elsewhere); its size is 65,536. *)
+Theorem C09_lev_rule : forall a b, (a < 256)%N -> (b < 256)%N ->
+  lev_get a b = Ok (if (a =? b)%N then 0 else -1).
+Proof. exact lev_rule_all. Qed.
+Print Assumptions C09_lev_rule.
+
+Theorem C09_lev_size : lev_size = 65536 /\ length lev_tab = N.to_nat 256
+  /\ forallb (fun r => Nat.eqb (length r) (N.to_nat 256)) lev_tab = true.
+Proof. exact lev_size_ok. Qed.
+Print Assumptions C09_lev_size.
+
+(* With the shipped Levenshtein table the Global score of two byte strings over
+   0..254 is exactly minus their edit distance (textbook recursive definition). *)
+Theorem C09_lev_is_edit_distance : forall a b,
+  Forall (fun x => (x < 255)%N) a -> Forall (fun x => (x < 255)%N) b ->
+  global_score_g lev_get a b = Ok (- Z.of_nat (edit_distance a b)).
+Proof. exact lev_is_edit_distance. Qed.
+Print Assumptions C09_lev_is_edit_distance.
+
+Theorem C09_lev_rule_is_edit_distance : forall a b, ~ In Gap a -> ~ In Gap b ->
+  global_score_g lev_rule a b = Ok (- Z.of_nat (edit_distance a b)).
+Proof. exact lev_rule_is_edit_distance. Qed.
+Print Assumptions C09_lev_rule_is_edit_distance.
+
+Theorem C09_lev_never_panics : forall a b,
+  Forall (fun x => (x < 255)%N) a -> Forall (fun x => (x < 255)%N) b ->
+  (exists r, global_g lev_get a b = Ok r) /\ (exists r, local_g lev_get a b = Ok r).
+Proof. exact lev_never_panics. Qed.
+Print Assumptions C09_lev_never_panics.
+
+(* The six shipped PAM/BLOSUM tables: defined for all 24 x 24 pairs over
+   "ABCDEFGHIKLMNPQRSTVWXYZ" + Gap, symmetric (for all byte pairs), gap-open 0,
+   576 integral entries each. *)
+Theorem C09_shipped_total : forall m x y, In m shipped_tabs ->
+  In x protein_alphabet -> In y protein_alphabet -> exists z, get m x y = Ok z.
+Proof. exact shipped_total. Qed.
+Print Assumptions C09_shipped_total.
+
+Theorem C09_shipped_symmetric : forall m, In m shipped_tabs -> forall x y, get m x y = get m y x.
+Proof. exact shipped_symmetric. Qed.
+Print Assumptions C09_shipped_symmetric.
+
+Theorem C09_shipped_gap_open_zero : forall m, In m shipped_tabs -> gap_open m = Ok 0.
+Proof. exact shipped_gap_open_zero. Qed.
+Print Assumptions C09_shipped_gap_open_zero.
+
+Theorem C09_shipped_sizes : map (@length _) shipped_tabs = repeat (N.to_nat 576) 6
+  /\ [pam120_nonintegral; pam160_nonintegral; pam250_nonintegral;
+      blosum45_nonintegral; blosum62_nonintegral; blosum80_nonintegral] = repeat false 6.
+Proof. exact shipped_sizes. Qed.
+Print Assumptions C09_shipped_sizes.
+
+(* Hence aligning two protein sequences never panics, is optimal, and swapping the
+   arguments leaves the scores unchanged. *)
+Theorem C09_shipped_never_panics : forall m a b, In m shipped_tabs ->
+  incl a protein_letters -> incl b protein_letters ->
+  (exists r, global m a b = Ok r) /\ (exists r, local m a b = Ok r).
+Proof. exact shipped_never_panics. Qed.
+Print Assumptions C09_shipped_never_panics.
+
+Theorem C09_shipped_optimal : forall m a b, In m shipped_tabs ->
+  incl a protein_letters -> incl b protein_letters ->
+  (exists gs, global_score m a b = Ok gs /\
+     forall al s, consumes al = (length a, length b) -> score m a b al = Ok s -> s <= gs)
+  /\ (exists ls, local_score m a b = Ok ls /\
+     forall i j al s, score m (skipn i a) (skipn j b) al = Ok s -> s <= ls).
+Proof. exact shipped_optimal. Qed.
+Print Assumptions C09_shipped_optimal.
+
+Theorem C09_shipped_swap : forall m a b, In m shipped_tabs ->
+  incl a protein_letters -> incl b protein_letters ->
+  global_score m a b = global_score m b a /\ local_score m a b = local_score m b a.
+Proof. exact shipped_swap. Qed.
+Print Assumptions C09_shipped_swap.
+
+(* Swapping in general: any symmetric matrix with gap-open 0. *)
+Theorem C09_global_swap : forall m a b, symmetric_g (get m) -> covers m a b -> gap_open m = Ok 0 ->
+  global_score m a b = global_score m b a.
+Proof. exact global_swap. Qed.
+Print Assumptions C09_global_swap.
+
+Theorem C09_local_swap : forall m a b, symmetric_g (get m) -> covers m a b -> nonpos_gaps m a b ->
+  gap_open m = Ok 0 -> local_score m a b = local_score m b a.
+Proof. exact local_swap. Qed.
+Print Assumptions C09_local_swap.
+
+(* Non-vacuity: BLOSUM62 is one of the shipped tables and covers "HEAGAWGHEE" /
+   "PAWHEAE"; the classic scores; Levenshtein "kitten"/"sitting" = -3. *)
+Example C09_example :
+  In blosum62_tab shipped_tabs
+  /\ incl (bs "HEAGAWGHEE") protein_letters /\ incl (bs "PAWHEAE") protein_letters
+  /\ covers blosum62_tab (bs "HEAGAWGHEE") (bs "PAWHEAE")
+  /\ gap_open blosum62_tab = Ok 0
+  /\ global_score blosum62_tab (bs "HEAGAWGHEE") (bs "PAWHEAE") = global_score blosum62_tab (bs "PAWHEAE") (bs "HEAGAWGHEE")
+  /\ global_score_g lev_get (bs "kitten") (bs "sitting") = Ok (-3)
+  /\ edit_distance (bs "kitten") (bs "sitting") = 3%nat
+  /\ Forall (fun x => (x < 255)%N) (bs "kitten").
+Proof.
+  split; [right; right; right; right; left; reflexivity|].
+  split; [apply inclb_sound; vm_compute; reflexivity|].
+  split; [apply inclb_sound; vm_compute; reflexivity|].
+  split; [apply coversb_sound; vm_compute; reflexivity|].
+  split; [vm_compute; reflexivity|]. split; [vm_compute; reflexivity|].
+  split; [vm_compute; reflexivity|]. split; [vm_compute; reflexivity|].
+  vm_compute. repeat constructor.
+Qed.
